@@ -146,6 +146,7 @@ def classify(ctx, gf, reach, exposed):
     """Returns dict global -> (class, reason) and list of findings (global, why, witness)."""
     verdict = {}
     cand = set()
+    del STICKY_FROM_BLOCK[:]
     for g in sorted(exposed):
         w = gf.writers.get(g, set())
         m = gf.mutators.get(g, set())
@@ -187,11 +188,49 @@ def _param_flag(ctx, gf, reach, g):
                 if isinstance(v, ast.Constant):
                     p = getattr(n, "_parent", None)
                     if isinstance(p, ast.If) and isinstance(p.test, ast.Name) and p.test.id in params and p in f.node.body:
+                        # set-only ("sticky") flag: it is never taken back, so what raises it must be the same for every block of a run
+                        ok_, site = _run_constant(ctx, f, p.test.id)
+                        if not ok_:
+                            STICKY_FROM_BLOCK.append((g, f, p.test.id, site))
                         continue
                 return False
             if isinstance(n, ast.AugAssign) and isinstance(n.target, ast.Name) and n.target.id == g[1]:
                 return False
     return True
+
+
+STICKY_FROM_BLOCK = []
+
+
+def _run_constant(ctx, f, pname, depth=0, seen=None):
+    """(True, None) if every call site of f passes for parameter `pname` a value that cannot differ between the blocks of one run: a
+    constant, nothing (default), an attribute of an options object the caller received, or the caller's own parameter for which the
+    same holds.  Otherwise (False, (caller, call))."""
+    seen = seen or set()
+    if (f.qual, pname) in seen or depth > 4:
+        return True, None
+    seen.add((f.qual, pname))
+    pos = f.params.index(pname) - (1 if f.cls is not None and f.params and f.params[0] in ("self", "cls") else 0)
+    for g in ctx.p.functions.values():
+        for c in calls_in(g.node, f.name):
+            if f not in ctx.r.resolve_call(g, c):
+                continue
+            a = c.args[pos] if len(c.args) > pos and not any(isinstance(x, ast.Starred) for x in c.args[:pos + 1]) else \
+                next((k.value for k in c.keywords if k.arg == pname), None)
+            if a is None or isinstance(a, ast.Constant):
+                continue
+            if isinstance(a, ast.Name) and a.id in g.params:
+                ok_, site = _run_constant(ctx, g, a.id, depth + 1, seen)
+                if not ok_:
+                    return False, site
+                continue
+            root = a
+            while isinstance(root, ast.Attribute):
+                root = root.value
+            if isinstance(a, ast.Attribute) and isinstance(root, ast.Name) and root.id in g.params:
+                continue
+            return False, (g, c, a)
+    return True, None
 
 
 def _idempotent_update(ctx, gf, reach, g):
@@ -234,6 +273,10 @@ def rule_a(ctx, out):
     for g, (cls, why) in sorted(verdict.items()):
         if cls != "STALE":
             out.ok({"global": f"{g[0]}.{g[1]}", "class": cls})
+    for g, f, pname, (caller, call, arg) in STICKY_FROM_BLOCK:
+        out.bad(f"sticky-flag-from-block-content:{g[1]}", f"module global {g[1]} is only ever raised ({f.name} sets it when its parameter `{pname}` is true, nothing "
+                f"takes it back), so it must depend on the options of the run alone; {caller.name} passes `{short(arg, 50)}` for it, a value computed per "
+                f"block: once a block raises the flag every later block is analysed differently", where(caller, call))
     for g, why, f, node in findings:
         entry_w = None
         for q in ENTRIES:
